@@ -20,7 +20,9 @@ type rEl struct {
 	Kind    string `json:"kind"`
 	Type    string `json:"type"`
 	ID      string `json:"id"`
-	From    string `json:"from"`
+	From    string `json:"from"` // none | own | ownfull | peer | domain
+	To      string `json:"to"`   // none | full | bare
+	NS      string `json:"ns"`   // own | other (the other stanza namespace)
 	Payload string `json:"payload"`
 }
 
@@ -43,7 +45,13 @@ type rVec struct {
 	E        rEl                 `json:"e"`
 	P        rProg               `json:"p"`
 	Mode     string              `json:"mode"`
-	NS       string              `json:"ns"`
+	Sess     sessRec             `json:"sess"`
+	Local    string              `json:"local"` // the specification's address rule for the session: A | H | B
+	Was      string              `json:"was"`
+	ENS      string              `json:"ens"`        // the element's namespace: client | server
+	Decl     bool                `json:"decl"`       // the element names its namespace itself
+	HdrDiff  bool                `json:"hdrdiffers"` // the stream header declares another namespace than the element's
+	End      string              `json:"end"`        // how the peer ends the stream: tag | eof
 	Writes   []rW                `json:"writes"`
 	Sentinel []rW                `json:"sentinel"`
 	Acc      [][]json.RawMessage `json:"acc"`
@@ -51,14 +59,20 @@ type rVec struct {
 
 var errHandler = errors.New("verif: handler failure")
 
-func addrOf(sym string) string {
+func (a *addrs) of(sym string) string {
 	switch sym {
-	case "own":
-		return ownBare
+	case "own", "bare":
+		return a.Own
+	case "ownfull", "full":
+		return a.OwnFull
 	case "peer":
-		return peerAddr
+		return a.Peer
+	case "domain":
+		return a.Domain
+	case "none":
+		return ""
 	}
-	return ""
+	panic("unknown address symbol " + sym)
 }
 
 var kind7Local = map[string]string{"iq": "iq", "msg": "message", "pres": "presence", "other": "other"}
@@ -80,12 +94,16 @@ func payloadName(e rEl, ns string) xml.Name {
 	return xml.Name{Space: nsPayload, Local: "q"}
 }
 
-func render7(e rEl, ns string) string {
+// render7 writes the element under test as the peer of the session sends it: ens is its
+// namespace, decl whether it names it itself (otherwise it inherits the stream header's).
+func render7(e rEl, ens string, decl bool, a *addrs) string {
 	var b strings.Builder
 	local := kind7Local[e.Kind]
 	b.WriteString("<" + local)
 	if e.Kind == "other" {
 		fmt.Fprintf(&b, ` xmlns="%s"`, nsOther)
+	} else if decl {
+		fmt.Fprintf(&b, ` xmlns="%s"`, ens)
 	}
 	if e.Type != "" {
 		fmt.Fprintf(&b, ` type="%s"`, e.Type)
@@ -94,9 +112,12 @@ func render7(e rEl, ns string) string {
 		fmt.Fprintf(&b, ` id="%s"`, xmlEsc(e.ID))
 	}
 	if e.From != "none" {
-		fmt.Fprintf(&b, ` from="%s"`, addrOf(e.From))
+		fmt.Fprintf(&b, ` from="%s"`, a.of(e.From))
 	}
-	fmt.Fprintf(&b, ` to="%s">`, ownFull)
+	if e.To != "none" {
+		fmt.Fprintf(&b, ` to="%s"`, a.of(e.To))
+	}
+	b.WriteString(">")
 	switch e.Payload {
 	case "child":
 		fmt.Fprintf(&b, `<q xmlns="%s"><z>t</z></q>`, nsPayload)
@@ -113,7 +134,14 @@ func render7(e rEl, ns string) string {
 	return b.String()
 }
 
-const sentinelXML = `<iq type="get" id="zz" from="` + peerAddr + `" to="` + ownFull + `"><s xmlns="` + nsSentinel + `"/></iq>`
+// sentinelXML is the request that follows the element under test.
+func sentinelXML(a *addrs) string {
+	decl := ""
+	if a.WS {
+		decl = ` xmlns="` + a.NS + `"`
+	}
+	return `<iq` + decl + ` type="get" id="zz" from="` + a.Peer + `" to="` + a.OwnFull + `"><s xmlns="` + nsSentinel + `"/></iq>`
+}
 
 // execRead follows the read part of a handler program.
 func execRead(t xml.TokenReader, how string) {
@@ -157,7 +185,8 @@ func (v elemVal) MarshalXML(e *xml.Encoder, _ xml.StartElement) error {
 	return e.EncodeToken(v.start.End())
 }
 
-func execWrites(t xmlstream.TokenWriter, ws []rW, ns string, explicitNS bool, via string) error {
+func execWrites(t xmlstream.TokenWriter, ws []rW, a *addrs, explicitNS bool, via string) error {
+	ns := a.NS
 	for _, w := range ws {
 		name := xml.Name{Local: w.El}
 		switch {
@@ -173,8 +202,8 @@ func execWrites(t xmlstream.TokenWriter, ws []rW, ns string, explicitNS bool, vi
 		if w.ID != "none" {
 			start.Attr = append(start.Attr, xml.Attr{Name: xml.Name{Local: "id"}, Value: w.ID})
 		}
-		if a := addrOf(w.To); a != "" {
-			start.Attr = append(start.Attr, xml.Attr{Name: xml.Name{Local: "to"}, Value: a})
+		if to := a.of(w.To); to != "" {
+			start.Attr = append(start.Attr, xml.Attr{Name: xml.Name{Local: "to"}, Value: to})
 		}
 		if enc, ok := t.(xmlstream.Encoder); ok && via != "token" && via != "" {
 			// the same element, handed over as a value (Encode) or as a value plus start element
@@ -219,6 +248,7 @@ func execWrites(t xmlstream.TokenWriter, ws []rW, ns string, explicitNS bool, vi
 type run7 struct {
 	v       rVec
 	ns      string
+	a       *addrs // set when the session exists
 	via     string // how the handler writes: "token" (EncodeToken), "encode", "encodeel"
 	invoked []string
 }
@@ -227,12 +257,12 @@ func (r *run7) program(t xmlstream.TokenReadEncoder, sentinel bool) error {
 	if sentinel {
 		r.invoked = append(r.invoked, "sentinel")
 		execRead(t, "all")
-		return execWrites(t, r.v.Sentinel, r.ns, false, "token")
+		return execWrites(t, r.v.Sentinel, r.a, false, "token")
 	}
 	r.invoked = append(r.invoked, "test")
 	execRead(t, r.v.P.Read)
 	explicit := r.v.P.Read == "one" || r.v.P.Read == "over"
-	if err := execWrites(t, r.v.Writes, r.ns, explicit, r.via); err != nil {
+	if err := execWrites(t, r.v.Writes, r.a, explicit, r.via); err != nil {
 		return fmt.Errorf("driver: write failed: %w", err)
 	}
 	if r.v.P.Ret == "err" {
@@ -268,7 +298,7 @@ func (r *run7) handler() xmpp.Handler {
 	}
 	switch e.Kind {
 	case "iq":
-		opts = append(opts, mux.IQFunc(stanza.IQType(e.Type), payloadName(e, r.ns), func(iq stanza.IQ, t xmlstream.TokenReadEncoder, start *xml.StartElement) error {
+		opts = append(opts, mux.IQFunc(stanza.IQType(e.Type), payloadName(e, stanzaNSOf(r.v.ENS)), func(iq stanza.IQ, t xmlstream.TokenReadEncoder, start *xml.StartElement) error {
 			return r.program(t, false)
 		}))
 	case "msg":
@@ -286,7 +316,7 @@ func (r *run7) handler() xmpp.Handler {
 }
 
 // expectOut turns one acceptable output of the specification into abstract elements.
-func expectOut(alt []json.RawMessage) ([]topOut, error) {
+func expectOut(alt []json.RawMessage, a *addrs) ([]topOut, error) {
 	outs := []topOut{}
 	for _, raw := range alt {
 		var parts []json.RawMessage
@@ -301,7 +331,7 @@ func expectOut(alt []json.RawMessage) ([]topOut, error) {
 			if err := json.Unmarshal(parts[1], &w); err != nil {
 				return nil, err
 			}
-			o := topOut{Local: w.El, NS: w.NS, Type: w.Type, To: addrOf(w.To), Nest: w.Nest}
+			o := topOut{Local: w.El, NS: w.NS, Type: w.Type, To: a.of(w.To), Nest: w.Nest}
 			if w.ID != "none" {
 				o.ID, o.HasID = w.ID, true
 			}
@@ -313,7 +343,7 @@ func expectOut(alt []json.RawMessage) ([]topOut, error) {
 			if id == "none" {
 				id = ""
 			}
-			outs = append(outs, topOut{Local: "iq", NS: "def", Type: "error", ID: id, To: addrOf(to), SU: true, Cond: "service-unavailable"})
+			outs = append(outs, topOut{Local: "iq", NS: "def", Type: "error", ID: id, To: a.of(to), SU: true, Cond: "service-unavailable"})
 		case "serr":
 			outs = append(outs, topOut{Local: "error", NS: "stream"})
 		default:
@@ -374,7 +404,7 @@ func replyMain(args []string) {
 	}
 	out := newOut(args[0])
 	defer out.close()
-	var evals, mism, stalls, nontrivial, serrOnWire, terminated int
+	var evals, mism, stalls, setups, nontrivial, serrOnWire, terminated int
 	classes := map[string]int{}
 	samples := []interface{}{}
 	for _, path := range args[1:] {
@@ -383,7 +413,7 @@ func replyMain(args []string) {
 			if err := json.Unmarshal(line, &v); err != nil {
 				die("vector: %v: %s", err, line)
 			}
-			ns := stanzaNSOf(v.NS)
+			ns := v.Sess.ns()
 			vias := []string{"token"}
 			foreign := false
 			for _, w := range v.Writes {
@@ -398,7 +428,14 @@ func replyMain(args []string) {
 			for _, via := range vias {
 				evals++
 				r := &run7{v: v, ns: ns, via: via}
-				input := render7(v.E, ns) + sentinelXML + "</stream:stream>"
+				render := func(a *addrs) []string {
+					r.a = a
+					in := render7(v.E, stanzaNSOf(v.ENS), v.Decl, a) + sentinelXML(a)
+					if v.End == "tag" {
+						in += "</stream:stream>"
+					}
+					return []string{in}
+				}
 				var h xmpp.Handler
 				regPanic := ""
 				func() {
@@ -412,7 +449,13 @@ func replyMain(args []string) {
 				if regPanic != "" {
 					die("driver: handler construction panicked: %s (%s)", regPanic, line)
 				}
-				res := serveInput(ns, input, h)
+				res := serveSession(v.Sess, v.Local, v.Was, render, h)
+				input := res.Input
+				if res.Setup != "" {
+					setups++
+					out.put(map[string]interface{}{"kind": "setup", "vector": v, "via": via, "why": res.Setup})
+					continue
+				}
 				if res.Stalled {
 					stalls++
 					out.put(map[string]interface{}{"kind": "stall", "vector": v, "via": via, "input": input})
@@ -433,7 +476,7 @@ func replyMain(args []string) {
 				if ok {
 					ok = false
 					for _, alt := range v.Acc {
-						exp, err := expectOut(alt)
+						exp, err := expectOut(alt, res.Addrs)
 						if err != nil {
 							die("vector acc: %v", err)
 						}
@@ -443,7 +486,7 @@ func replyMain(args []string) {
 						}
 					}
 				}
-				cls := fmt.Sprintf("%s/%s/%s/%d outs/err=%v", v.E.Kind, v.E.Type, v.Mode, len(obs), res.Err != nil)
+				cls := fmt.Sprintf("%s/%s/%s/%s/%d outs/err=%v", v.Sess.Kind, v.E.Kind, v.E.Type, v.Mode, len(obs), res.Err != nil)
 				classes[cls]++
 				if len(obs) > 0 {
 					nontrivial++
@@ -462,8 +505,8 @@ func replyMain(args []string) {
 			}
 		})
 	}
-	summary(map[string]interface{}{"evaluations": evals, "mismatches": mism, "stalls": stalls, "nontrivial": nontrivial,
-		"distinct_classes": len(classes), "samples": samples,
+	summary(map[string]interface{}{"evaluations": evals, "mismatches": mism, "stalls": stalls, "setup_failures": setups, "nontrivial": nontrivial,
+		"distinct_classes": len(classes), "classes": classNames(classes), "samples": samples,
 		"terminated_with_error": terminated, "stream_error_elements_on_wire": serrOnWire})
 	_ = io.EOF
 }
